@@ -7,6 +7,7 @@ import os
 from fractions import Fraction
 
 from ..core import frac
+from .. import cwiter
 
 LEVEL = "proof"
 RULE = ("one call of one estimator / smoother per case, plus the same call on the shifted (a+c) and rescaled (k*a) "
@@ -59,6 +60,11 @@ TRUSTED_EXTRA = [
     "fuel (Generated/ExprsDescLoop.lean: the outer loop of biweight_location; rules at the top of the file)",
     "harness/padslices.py + lean/CnvVerif/Model/PadExt5.lean: Python's rule for a step -1 slice (negative bounds count from "
     "the end, clipped to [-1, n-1]) in which smoothing._pad_array is written (Generated/ExprsPad.lean)",
+    "harness/cwloop.py + lean/CnvVerif/Model/SmoothIterPrimExt5b.lean: the reading of the fixed-count loop over whole-array "
+    "statements (np.convolve(.., mode='same'), element-wise * and /) in which smoothing.convolve_weighted is written "
+    "(Generated/ExprsCwIter.lean; rules at the top of harness/cwloop.py)",
+    "harness/wmadcall.py: the reading of descriptives.weighted_mad as two calls of the generated src_weighted_median, each with "
+    "the permutation of its own argsort as a parameter (Generated/ExprsWmad.lean)",
 ]
 
 PREFIX = os.environ.get("VERIF_C19_MODEL", "") == "prefix"   # model of the unrepaired functions
@@ -546,6 +552,11 @@ def gen_cases(rng, tier):
                 continue
         i = {"name": nm, "a": a, "w": w, "c": 1.0, "k": 2.0, "exact": True, "malformed": True}
         cases.append({"op": "loc" if nm == "weighted_median" else "scale", "tag": nm + "-malformed", "in": i})
+    # round 5b: convolve_weighted called directly, n_iter = 0..4 (harness/cwiter.py); drawn last, so the cases above
+    # are the same as before for a given seed
+    cases.extend(cwiter.gen_cases(rng, tier))
+    if os.environ.get("VERIF_C19_ONLY"):   # development / mutation tests: a restricted run
+        cases = [c for c in cases if c["op"] == os.environ["VERIF_C19_ONLY"]]
     return cases
 
 
@@ -623,6 +634,8 @@ def run_impl(case):
     import numpy as np
     from cnvlib import descriptives as D, smoothing as S
 
+    if case["op"] == "cw_iter":
+        return cwiter.run_impl(case)
     op, i = case["op"], case["in"]
     name = i["name"]
     rep, wrep, rseed = i.get("rep"), i.get("wrep"), i.get("rseed", 0)
@@ -767,6 +780,8 @@ def _fr(v):
 
 
 def to_line(case, impl):
+    if case["op"] == "cw_iter":
+        return cwiter.to_line(case, impl)
     op, i = case["op"], case["in"]
     err = isinstance(impl, dict) and "__error__" in impl
     inp = {"name": i["name"], "prefix": PREFIX}
@@ -821,6 +836,8 @@ def _close(x, q, tol=1e-9):
 
 
 def judge(case, impl, resp):
+    if case["op"] == "cw_iter":
+        return cwiter.judge(case, impl, resp)
     op, i = case["op"], case["in"]
     out = resp.get("out")
     model_err = out.get("error") if isinstance(out, dict) else None
@@ -912,6 +929,12 @@ def classify_savgol_zero_denominator(case, impl, resp):
 
 
 def shrink(case):
+    if case["op"] == "cw_iter" and not case.get("_cw"):
+        # np.convolve(mode="same") swaps its arguments when the signal is shorter than the window: outside the model
+        for c in shrink(dict(case, _cw=True)):
+            if len(c["in"]["x"]) >= len(c["in"]["window"]) and len(c["in"]["w"]) >= len(c["in"]["window"]):
+                yield c
+        return
     i = case["in"]
     keys = [k for k in ("a", "w", "x") if k in i and isinstance(i[k], list)]
     main = "a" if "a" in i else "x"
